@@ -165,7 +165,9 @@ def session(cfg, sock):
                 holders.append(('auth', c.auth('user', 'pw', mechanism=b'LOGIN')))
             holders.append((pre + 'mail', c.mailfrom('s%d@x' % t)))
             for i in range(cfg['n']):
-                holders.append((pre + 'rcpt%d' % i, c.rcptto('r%d@y' % i)))
+                # cfg['dup']: the same address in every RCPT command (legal; each gets its own reply and, in LMTP, its own
+                # end-of-data reply)
+                holders.append((pre + 'rcpt%d' % i, c.rcptto('r0@y' if cfg.get('dup') else 'r%d@y' % i)))
             if cfg.get('prog') == 'rehello':
                 holders.append(('ehlo-again', c.lhlo('me') if cfg['lmtp'] else c.ehlo('me')))
             d = c.data()
@@ -176,7 +178,11 @@ def session(cfg, sock):
                 else:
                     # three parts, the middle one empty: part boundaries are not line boundaries of their own
                     sd = c.send_data(b'Subject: x\r\n\r\n', b'', b'.leading dot\r\nbody\r\n')
-                if cfg['lmtp']:
+                if cfg['lmtp'] and cfg.get('dup'):
+                    acc = [i for i in range(cfg['n']) if _split_classes(transactions_of(cfg)[t], cfg['n'])[1][i] == '2']
+                    for j, (rcpt, r) in enumerate(sd):
+                        holders.append((pre + 'enddata%d' % (acc[j] if j < len(acc) else 90 + j), r))
+                elif cfg['lmtp']:
                     for rcpt, r in sd:
                         holders.append((pre + 'enddata%d' % int(rcpt[1]), r))
                 else:
@@ -331,6 +337,17 @@ def auth_scripts(tier):
                                'classes': cls, 'lshift': 0}
 
 
+def dup_scripts(tier):
+    for lmtp in (True, False):
+        for pipelining in (True, False):
+            for cls in ('22232', '222322', '25232', '22235', '222325', '222352'):
+                n = 2
+                want = 1 + n + 1 + ((sum(1 for x in cls[1:1 + n] if x == '2') if lmtp else 1) if cls[1 + n] == '3' else 0)
+                if len(cls) != want:
+                    continue
+                yield {'lmtp': lmtp, 'pipelining': pipelining, 'n': n, 'empty': False, 'dup': True, 'classes': cls, 'lshift': 0}
+
+
 def auth_late_scripts(tier):
     for lmtp in (False, True):
         for pipelining in (True, False):
@@ -381,7 +398,7 @@ def configs(tier, seed):
 
 def run_config(cfg, tier, seed):
     res = Result()
-    for i, sc in enumerate(itertools.chain(scripts(tier), extra_scripts(tier), auth_scripts(tier), auth_late_scripts(tier))):
+    for i, sc in enumerate(itertools.chain(scripts(tier), extra_scripts(tier), auth_scripts(tier), auth_late_scripts(tier), dup_scripts(tier))):
         if i % cfg['of'] != cfg['k']:
             continue
         script, outs = run_script(sc, tier, res)
